@@ -1,6 +1,8 @@
 """C12 — hydrogen completion. Correspondence: Model.Hydrogens.add_implicit_hydrogens ~
 fgutils.utils.add_implicit_hydrogens (exact graph equality: node order, attributes, adjacency order)."""
+import copy
 import itertools
+import random
 
 import networkx as nx
 
@@ -25,8 +27,14 @@ RULE = ("random molecules/forests (0-12 atoms) over C N O S P B Si Sn Cl Br F Se
         "hydrogens; already completed graphs; a few graphs with a self-loop or with one tuple/list (ITS) label; all id "
         "schemes of gens.reid (contiguous/offset/sparse/shuffled/negative) with independent node and adjacency "
         "orders; thorough adds every labelled graph on <= 2 atoms over a 9-symbol alphabet. "
-        "non-trivial = at least one hydrogen added and at least two input atoms; distinct = distinct input graph "
-        "(ids, symbols, node order, adjacency order)")
+        "One case in four is a HISTORY on one graph object: complete; edit the completed object in place (lower a bond "
+        "order, delete a bond, relabel an atom, turn an explicit H into a heavy atom, remove one atom and add another "
+        "-- all keeping the atom count -- or remove an H / remove a heavy atom / add an atom, or no edit); complete "
+        "again on the same object or on its .copy() / copy.deepcopy(); optionally a third round. EVERY completion of "
+        "a history is compared with the model applied to the object's contents at that moment (graph_eqb) and judged "
+        "by addh_okb; some objects carry graph-level attributes. "
+        "non-trivial = at least one hydrogen added and at least two input atoms; distinct = distinct (input graph "
+        "(ids, symbols, node order, adjacency order), script)")
 TRUSTED = ["model of the attribute dict as a record of the five keys FGUtils uses",
            "bond orders are multiples of 0.5 kept in half units (float sums of such values are exact)"]
 ASSUMPTIONS = ["node ids are Python ints; bond labels are ints/floats that are multiples of 0.5 for the theorems "
@@ -98,15 +106,110 @@ def _exhaustive_small():
                 yield g
 
 
+
+# ----------------------------------------------------------------------------- histories
+
+EDIT_KINDS = ["lower_bond", "remove_edge", "relabel", "swap_h", "remove_add",      # keep the atom count
+              "remove_h", "remove_heavy", "add_atom", "none"]                      # change it / no edit
+HOWS = ["same", "same", "copy", "deepcopy"]
+SINGLE = [["complete", "same"]]
+
+
+def _gen_script(rng):
+    script = [["complete", rng.choice(["same", "same", "same", "copy", "deepcopy"])]]
+    for _ in range(1 if rng.random() < 0.7 else 2):
+        script.append(["edit", rng.choice(EDIT_KINDS), rng.randrange(10 ** 6)])
+        if rng.random() < 0.15:
+            script.append(["edit", rng.choice(EDIT_KINDS), rng.randrange(10 ** 6)])
+        script.append(["complete", rng.choice(HOWS)])
+    return script
+
+
+def _gen_gattr(rng):
+    r = rng.random()
+    if r < 0.5:
+        return {}
+    if r < 0.8:
+        return {"name": "mol%d" % rng.randrange(100)}
+    return {"name": "m", "tags": ["a", "b"], "n_atoms": rng.randrange(1, 12)}
+
+
+def _apply_edit(g, kind, seed):
+    """Edit the graph object in place through the public networkx API; deterministic in (contents, kind, seed).
+    Returns the kind actually applied (a kind that is not applicable falls through to the next one)."""
+    rng = random.Random("c12edit:%s:%s" % (kind, seed))
+    nodes = list(g.nodes)
+    if kind == "none":
+        return "none"
+    if not nodes:
+        g.add_node(rng.randrange(0, 5), symbol=rng.choice(HEAVY))
+        return "add_atom"
+    sym = lambda n: g.nodes[n].get("symbol")
+    heavy = [n for n in nodes if sym(n) not in (None, "H", "R")]
+    hs = [n for n in nodes if sym(n) == "H"]
+    if kind == "lower_bond":
+        es = [(u, v) for u, v, b in g.edges(data="bond") if isinstance(b, (int, float)) and b > 1]
+        if es:
+            u, v = rng.choice(es)
+            g[u][v]["bond"] = 1
+            return kind
+        kind = "remove_edge"
+    if kind == "remove_edge":
+        es = [(u, v) for u, v in g.edges if sym(u) != "H" and sym(v) != "H"]
+        if es:
+            g.remove_edge(*rng.choice(es))
+            return kind
+        kind = "relabel"
+    if kind == "relabel":
+        if heavy:
+            n = rng.choice(heavy)
+            g.nodes[n]["symbol"] = rng.choice([x for x in ["C", "N", "O", "B", "Si", "S", "Cl"] if x != sym(n)])
+            return kind
+        kind = "swap_h"
+    if kind == "swap_h":
+        if hs:
+            g.nodes[rng.choice(hs)]["symbol"] = rng.choice(["C", "C", "N", "O"])
+            return kind
+        kind = "add_atom"
+    if kind == "remove_h":
+        if hs:
+            g.remove_node(rng.choice(hs))
+            return kind
+        kind = "remove_heavy"
+    if kind == "remove_heavy":
+        if heavy and len(nodes) > 1:
+            g.remove_node(rng.choice(heavy))
+            return kind
+        kind = "add_atom"
+    if kind == "remove_add":
+        victim = rng.choice(hs) if hs and rng.random() < 0.6 else rng.choice(nodes)
+        g.remove_node(victim)
+        rest = list(g.nodes)
+        new_id = rng.choice([victim, max(nodes) + 1, min(nodes) - 1, max(nodes) + 7])
+        g.add_node(new_id, symbol=rng.choice(["C", "N", "O", "H", "Cl"]))
+        if rest:
+            g.add_edge(rng.choice(rest), new_id, bond=rng.choice([1, 1, 2]))
+        return kind
+    # add_atom
+    new_id = rng.choice([max(nodes) + 1, min(nodes) - 1, max(nodes) + 5])
+    g.add_node(new_id, symbol=rng.choice(["C", "N", "O", "H", "F"]))
+    g.add_edge(rng.choice(nodes), new_id, bond=rng.choice([1, 1, 2]))
+    return "add_atom"
+
+
 def generate(seed, tier, ncases=None):
     n = ncases or (600 if tier == "quick" else 14000)
     for i in range(n):
         rng = lib.rng_for(seed, ID, i)
         g, kind, scheme = _gen_one(rng)
-        yield {"graph": g, "kind": kind, "scheme": scheme}
+        if i % 4 == 3 and kind not in ("its", "empty"):
+            yield {"graph": g, "kind": kind, "scheme": scheme, "script": _gen_script(rng), "gattr": _gen_gattr(rng)}
+        else:
+            yield {"graph": g, "kind": kind, "scheme": scheme, "script": SINGLE,
+                   "gattr": _gen_gattr(rng) if rng.random() < 0.2 else {}}
     if tier == "thorough" and not ncases:
         for g in _exhaustive_small():
-            yield {"graph": g, "kind": "small-exhaustive", "scheme": "fixed"}
+            yield {"graph": g, "kind": "small-exhaustive", "scheme": "fixed", "script": SINGLE, "gattr": {}}
 
 
 CORPUS_SMILES = ["C=O", "CO", "HC(H)(H)OH", "C", "C:1N:C:S:C:1", "C:1C:N(H):C:C:1", "C:1C:C:N:C:C:1", "OB(O)O",
@@ -114,7 +217,7 @@ CORPUS_SMILES = ["C=O", "CO", "HC(H)(H)OH", "C", "C:1N:C:S:C:1", "C:1C:N(H):C:C:
                  "FS(F)(F)(F)(F)F"]
 
 
-def corpus():
+def _corpus_graphs():
     # D16 witness: ids 1..2, the first hydrogen id used to be len(graph) = 2 = the oxygen
     yield {"graph": parse("CO", idx_offset=1), "kind": "corpus-D16", "scheme": "offset"}
     yield {"graph": parse("CCO", idx_offset=5), "kind": "corpus-D16", "scheme": "offset"}
@@ -139,80 +242,182 @@ def corpus():
         yield {"graph": g, "kind": "corpus", "scheme": "contig"}
 
 
+
+
+def corpus():
+    for c in _corpus_graphs():
+        c.setdefault("script", SINGLE)
+        c.setdefault("gattr", {})
+        yield c
+    # histories that defeat a "this object is already complete" record kept on the object (graph.graph, a node
+    # attribute, ...) or beside it: the atom count is the same before the second completion, valences are not
+    for smi, edits in (("C=O", [["edit", "lower_bond", 1]]), ("CC(=O)O", [["edit", "lower_bond", 2]]),
+                       ("HC(H)(H)OH", [["edit", "swap_h", 3]]), ("CO", [["edit", "relabel", 4]]),
+                       ("CCO", [["edit", "remove_add", 5]]), ("C#N", [["edit", "remove_edge", 6]]),
+                       ("CO", [["edit", "none", 7]]), ("CCN", [["edit", "remove_h", 8]])):
+        for how in ("same", "copy", "deepcopy"):
+            yield {"graph": parse(smi, idx_offset=2 if how == "copy" else 0), "kind": "corpus-history",
+                   "scheme": "offset" if how == "copy" else "contig",
+                   "script": [["complete", "same"]] + edits + [["complete", how]], "gattr": {"name": smi}}
+
+
+# ----------------------------------------------------------------------------- running the implementation
+
+def _diff_attrs(before, after, gattr_before, obj):
+    """Runtime facts the Coq comparison cannot see (it reads the five node keys and 'bond' only): the graph-level
+    attribute dict is untouched, and nothing but the documented attributes appears on nodes / edges.
+    Returns (messages, cleaned copy of `after` with undocumented keys stripped so that the Coq checks still run)."""
+    msgs = []
+    if obj.graph != gattr_before or list(obj.graph) != list(gattr_before):
+        msgs.append("the call changed the graph-level attribute dict graph.graph: %r -> %r" % (gattr_before, dict(obj.graph)))
+    clean = gens.copy_exact(after)
+    for n in after.nodes:
+        keys = set(after.nodes[n])
+        allowed = set(before.nodes[n]) if n in before.nodes else {"symbol"}
+        extra = keys - allowed
+        if extra:
+            msgs.append("undocumented attribute(s) %r appeared on %s node %r" % (sorted(extra), "old" if n in before.nodes else "new", n))
+            for k in extra:
+                del clean.nodes[n][k]
+    for u, v, dd in after.edges(data=True):
+        allowed = set(before.edges[u, v]) if before.has_edge(u, v) else {"bond"}
+        extra = set(dd) - allowed
+        if extra:
+            msgs.append("undocumented attribute(s) %r appeared on %s edge %r" % (sorted(extra), "old" if before.has_edge(u, v) else "new", (u, v)))
+            for k in extra:
+                del clean.edges[u, v][k]
+    return msgs, clean
+
+
 def run_impl(c):
-    g = gens.copy_exact(c["graph"])
-    try:
-        ret = add_implicit_hydrogens(g)
-    except TypeError as e:
-        return ("TypeError", str(e))
-    except ValueError as e:
-        return ("ValueError", str(e))
-    same_obj = ret is g
-    # idempotence of the implementation itself: a second application changes nothing
-    again = gens.copy_exact(ret)
-    try:
-        again = add_implicit_hydrogens(again)
-        idem = gens.graphs_identical(again, ret)
-    except Exception as e:
-        idem = False
-    return ("ok", ret, same_obj, idem)
+    """Plays the script on ONE graph object. Returns ("hist", steps, idem) with one record per completion:
+    dict(how, before, status, after, msgs, edits=[kinds applied since the previous completion])."""
+    obj = gens.copy_exact(c["graph"])
+    obj.graph.update(copy.deepcopy(c.get("gattr") or {}))
+    steps, edits = [], []
+    for op in c.get("script") or SINGLE:
+        if op[0] == "edit":
+            edits.append(_apply_edit(obj, op[1], op[2]))
+            continue
+        how = op[1]
+        if how == "copy":
+            obj = obj.copy()
+        elif how == "deepcopy":
+            obj = copy.deepcopy(obj)
+        before = gens.copy_exact(obj)
+        gattr_before = copy.deepcopy(dict(obj.graph))
+        rec = {"how": how, "before": before, "edits": edits, "msgs": []}
+        edits = []
+        steps.append(rec)
+        try:
+            ret = add_implicit_hydrogens(obj)
+        except (TypeError, ValueError) as e:
+            rec.update(status=type(e).__name__, after=None, err=str(e))
+            break   # the object is left half-edited by the exception; the history ends here
+        rec["status"] = "ok"
+        if ret is not obj:
+            rec["msgs"].append("add_implicit_hydrogens did not return the graph object it was given")
+            if not isinstance(ret, nx.Graph):
+                rec.update(status="BadReturn", after=None, err=repr(ret)[:200])
+                break
+        msgs, clean = _diff_attrs(before, gens.copy_exact(ret), gattr_before, obj)
+        rec["msgs"].extend(msgs)
+        rec["after"] = clean
+        obj = ret
+    # idempotence of the implementation itself on a FRESH object with the final contents
+    idem = True
+    if steps and steps[-1]["status"] == "ok":
+        again = gens.copy_exact(steps[-1]["after"])
+        try:
+            idem = gens.graphs_identical(add_implicit_hydrogens(again), steps[-1]["after"])
+        except Exception:   # noqa
+            idem = False
+    return ("hist", steps, idem)
 
 
-def out_term(out):
-    return "(@None graph)" if out[0] != "ok" else "(Some %s)" % ct.graph(out[1])
+def out_term(rec):
+    return "(@None graph)" if rec["status"] != "ok" else "(Some %s)" % ct.graph(rec["after"])
 
 
 def coq_case(c, out):
-    defs = {"g": ct.graph(c["graph"]), "out": out_term(out)}
-    model = "add_implicit_hydrogens $g"
+    defs, agree, spec, diag = {}, [], [], []
+    for k, rec in enumerate(out[1]):
+        if rec["status"] not in ("ok", "TypeError", "ValueError"):
+            raise ct.Unrepresentable("the function returned %s instead of a graph" % rec.get("err"))
+        defs["g%d" % k] = ct.graph(rec["before"])
+        defs["out%d" % k] = out_term(rec)
+        model = "add_implicit_hydrogens $g%d" % k
+        agree.append("option_eqb graph_eqb (%s) $out%d" % (model, k))
+        # wfb $g: the hypothesis of every theorem (well-formed input) is checked on each case as well
+        spec.append("wfb $g%d && addh_okb $g%d $out%d" % (k, k, k))
+        diag += [model, "addh_report $g%d $out%d" % (k, k)]
     return {"defs": defs,
-            "checks": {"agree": "option_eqb graph_eqb (%s) $out" % model,
-                       # wfb $g: the hypothesis of every theorem (well-formed input) is checked on each case as well
-                       "spec": "wfb $g && addh_okb $g $out"},
-            "diag": [model, "addh_report $g $out"]}
+            "checks": {"agree": " && ".join("(%s)" % x for x in agree) or "true",
+                       "spec": " && ".join("(%s)" % x for x in spec) or "true"},
+            "diag": diag[:6]}
 
 
 def describe(c):
-    return {"kind": c["kind"], "scheme": c["scheme"], "graph": ct.graph_py(c["graph"])}
+    return {"kind": c["kind"], "scheme": c["scheme"], "graph": ct.graph_py(c["graph"]),
+            "script": c.get("script") or SINGLE, "gattr": c.get("gattr") or {}}
 
 
 def from_json(d):
-    return {"kind": d["kind"], "scheme": d["scheme"], "graph": ct.graph_from_py(d["graph"])}
+    return {"kind": d["kind"], "scheme": d["scheme"], "graph": ct.graph_from_py(d["graph"]),
+            "script": d.get("script") or SINGLE, "gattr": d.get("gattr") or {}}
 
 
 def describe_out(out):
-    if out[0] == "ok":
-        return {"status": "ok", "graph": ct.graph_py(out[1]), "returned_argument": out[2], "second_run_same": out[3]}
-    return {"status": out[0], "msg": out[1]}
+    res = []
+    for rec in out[1]:
+        r = {"completion_on": rec["how"], "edits_before": rec["edits"], "contents_before": ct.graph_py(rec["before"]),
+             "status": rec["status"], "runtime_messages": rec["msgs"]}
+        if rec["status"] == "ok":
+            r["graph"] = ct.graph_py(rec["after"])
+        else:
+            r["msg"] = rec.get("err")
+        res.append(r)
+    return {"completions": res, "fresh_rerun_same": out[2]}
 
 
 def key(c):
-    return ct.graph_canon(c["graph"])
+    return (ct.graph_canon(c["graph"]), repr(c.get("script") or SINGLE))
 
 
-def _added(c, out):
-    return out[1].number_of_nodes() - c["graph"].number_of_nodes() if out[0] == "ok" else 0
+def _added(rec):
+    return rec["after"].number_of_nodes() - rec["before"].number_of_nodes() if rec["status"] == "ok" else 0
 
 
 def nontrivial(c, out):
-    return out[0] == "ok" and c["graph"].number_of_nodes() >= 2 and _added(c, out) > 0
+    steps = out[1]
+    return bool(steps) and steps[0]["status"] == "ok" and c["graph"].number_of_nodes() >= 2 and _added(steps[0]) > 0
 
 
 def classes(c, out):
+    steps = out[1]
     yield "kind=" + c["kind"]
     yield "scheme=" + c["scheme"]
-    yield "result=" + out[0]
-    a = _added(c, out)
+    yield "result=" + (steps[0]["status"] if steps else "none")
+    a = _added(steps[0]) if steps else 0
     yield "added=" + ("0" if a == 0 else "1-3" if a <= 3 else "4-9" if a <= 9 else "10+")
     n = c["graph"].number_of_nodes()
     yield "atoms=" + ("0" if n == 0 else "1-3" if n <= 3 else "4-6" if n <= 6 else "7+")
+    yield "completions=%d" % len(steps)
+    if c.get("gattr"):
+        yield "graph_attrs=yes"
+    for rec in steps[1:]:
+        same_count = rec["before"].number_of_nodes() == steps[steps.index(rec) - 1]["after"].number_of_nodes()
+        yield "recompletion:on=%s" % rec["how"]
+        for e in rec["edits"]:
+            yield "recompletion:edit=" + e
+        yield "recompletion:atom_count_%s,adds_%s" % ("same" if same_count else "changed", "H" if _added(rec) > 0 else "nothing")
 
 
 def py_invariants(c, out):
     msgs = []
-    if out[0] == "ok":
-        if not out[2]:
-            msgs.append("add_implicit_hydrogens did not return the graph object it was given")
-        if not out[3]:
-            msgs.append("applying add_implicit_hydrogens a second time changed the graph (not idempotent)")
+    for k, rec in enumerate(out[1]):
+        for m in rec["msgs"]:
+            msgs.append("completion #%d (on %s): %s" % (k + 1, rec["how"], m))
+    if not out[2]:
+        msgs.append("applying add_implicit_hydrogens once more to a fresh copy of the final result changed the graph (not idempotent)")
     return msgs
